@@ -43,11 +43,11 @@ PROBES = ['{e.__class__}', '{0}', '{url!r}', '{e.body.__class__.__mro__}', '{e.t
           '</tt><script>alert(1)</script>', '"><img src=x onerror=alert(1)>', "'-alert(1)-'", '&lt;script&gt;', '&#60;b&#62;',
           '<!--', '--><b>', '<![CDATA[', '\\', '\\x3cb\\x3e', '%3Cb%3E', '&amp;lt;', 'javascript:alert(1)', '<b' + 'a' * 1200 + '>', '<script>x</script>' + 'a' * 1200, 'a' * 1100 + '<b>"', '<i>' * 300]
 POSITIONS = ['path', 'query', 'host', 'xfhost', 'xfproto']
-KINDS = ['404', '405', '400', '500', 'critical', '400path', '500data']
+KINDS = ['404', '405', '400', '500', 'critical', '400path', '500data', 'criticaldm']     # criticaldm: the last-resort page of an application with a domain_map
 
 
 # 'rawpath': PATH_INFO is the payload itself, WITHOUT a leading slash (a raw client / a server that does not normalise)
-RAW_KINDS = ['404', 'critical']
+RAW_KINDS = ['404', 'critical', 'criticaldm']
 
 
 def payloads(n):
@@ -151,9 +151,16 @@ class Apps:
         def bad404(res):
             raise RuntimeError('error handler failed')
         self.app2 = app2
+        # several domains served by one application: a domain_map is configured (it maps no host to a sub-application here)
+        app3 = om.Ombott({'domain_map': lambda host: None})
+
+        @app3.error(404)
+        def bad404dm(res):
+            raise RuntimeError('error handler failed')
+        self.app3 = app3
 
     def request(self, kind, pos, payload, as_json):
-        base = {'404': '/nf/', '405': '/m/', '400': '/b/', '500': '/c/', 'critical': '/nf/', '400path': '/nf/\xe9', '500data': '/d/'}[kind]
+        base = {'404': '/nf/', '405': '/m/', '400': '/b/', '500': '/c/', 'critical': '/nf/', 'criticaldm': '/nf/', '400path': '/nf/\xe9', '500data': '/d/'}[kind]
         path = base + (payload if pos == 'path' else 'a')
         if pos == 'rawpath':
             path = payload
@@ -172,11 +179,11 @@ class Apps:
         if kind == '400':
             kw = {'body': b'zz\r\n', 'chunked': True}
         env = wsgi.environ(method, path, qs=qs, headers=headers, **kw)
-        return wsgi.call(self.app2 if kind == 'critical' else self.app, env)
+        return wsgi.call(self.app2 if kind == 'critical' else (self.app3 if kind == 'criticaldm' else self.app), env)
 
 
 def expected_status(kind):
-    return {'404': 404, '405': 405, '400': 400, '500': 500, 'critical': 500, '400path': 400, '500data': 500}[kind]
+    return {'404': 404, '405': 405, '400': 400, '500': 500, 'critical': 500, 'criticaldm': 500, '400path': 400, '500data': 500}[kind]
 
 
 def shown(pos, payload):
@@ -195,7 +202,7 @@ def judge(apps, kind, pos, payload, as_json, baseline, core_alphabet=True):
         return 'status', f'status {c.status}, expected {expected_status(kind)}'
     body = c.body.decode('utf8', 'replace')
     ctype = c.header('Content-Type', '')
-    if as_json and kind != 'critical':
+    if as_json and not kind.startswith('critical'):
         if not ctype.startswith('application/json'):
             return 'json-ctype', f'JSON requested, Content-Type is {ctype!r}'
         try:
@@ -211,13 +218,13 @@ def judge(apps, kind, pos, payload, as_json, baseline, core_alphabet=True):
     if ev != baseline[0]:
         extra = [e for e in ev if e not in baseline[0]][:3]
         return 'markup-injected', f'HTML token sequence differs from the benign page; extra/different tokens {extra!r}'
-    want = shown(pos, payload) if kind != 'critical' else payload
-    if kind == 'critical' and pos not in ('path', 'rawpath'):
+    want = shown(pos, payload) if not kind.startswith('critical') else payload
+    if kind.startswith('critical') and pos not in ('path', 'rawpath'):
         return None     # the last-resort page shows the path only
     if kind == '400path':
         return None     # which URL the page of an undecodable path shows is C09's business; only markup is judged here
     t = text
-    if kind != 'critical':
+    if not kind.startswith('critical'):
         # the page shows repr(url): undo repr's backslash doubling for the containment test
         t = t.replace('\\\\', '\\')
     if '&' not in payload or not core_alphabet:
@@ -271,11 +278,11 @@ def work(spec):
                 v = judge(apps, k, p, payload, as_json, base_cache[key], core_alphabet=(kind != 'x'))
             except Exception as e:   # noqa
                 v = ('harness', f'{type(e).__name__}: {e}')
-            if as_json and k != 'critical':
+            if as_json and not k.startswith('critical'):
                 c['json_pages'] += 1
             else:
                 c['html_pages'] += 1
-                if k == 'critical':
+                if k.startswith('critical'):
                     c['critical_pages'] += 1
             if any(ch in payload for ch in '<>"\'&{}'):
                 c['markup_payloads'] += 1
